@@ -40,6 +40,41 @@ CLAIMS = {
         "text": "PARTIAL. Decides, exhaustively over label x media x hint x guidance (320 combinations for questions, 20 each for groups and repeats) and 48 message combinations: every jr:itext id emitted by the body/bind emitters is registered by the collectors; padding gives every language every id and form and runs before serialisation; one translation per language with the default marked once; choice ids agree across instance, registration and search redirect. NOT decided: text content per language (C08).",
         "note": NOTE_COMMON,
     },
+    "C09": {
+        "technique": "order-preserving-flow and per-item emission by abstract evaluation; instance de-duplication table; URI convention table; receiver-field provenance of the itemset; writer/reader agreement of itemsets.csv",
+        "text": "PARTIAL. Decides on representative rows: grouping / cleaning / Itemset construction keep order, size and duplicates; each choice item emits [itextId] name [label] extras in column order; instances are declared once per (id, URI), clashes raise, search-only lists are inline, choices come last; every producer's URI follows the jr:// convention; the select control reads its own list/filter/randomize/seed/value/label (11 variants) and the external query its own; or_other literals; itemsets.csv writes every cell under its own header. NOT decided: grouping of arbitrary sheets at run time.",
+        "note": NOTE_COMMON,
+    },
+    "C11": {
+        "technique": "slot->sink wiring by abstract evaluation with one symbol per setting; alias table; evaluation of the defaults / meta slices of workbook_to_json over presence combinations; def-use of the fallback name; sibling call-site agreement for default_language",
+        "text": "PARTIAL. Decides: every setting lands in exactly its own output position (title, style, id, version, xmlns, prefix, delimiter, attribute::, the 16 submission combinations); settings aliases; documented defaults and 'settings override defaults' over 48 combinations; instanceID/instanceName/omit_instanceID/public_key over 64 combinations; fallback form name from the file stem; default_language plumbing. NOT decided: verbatim survival of arbitrary values through text cleaning.",
+        "note": NOTE_COMMON,
+    },
+    "C12": {
+        "technique": "sibling cross-check of the four container backends (feature vectors by abstract evaluation); writer/reader schema agreement with DefinitionData; empty-run scanners at their limits; dispatch exhaustiveness",
+        "text": "PARTIAL, and the headline clause is NOT decided: equality of outputs across containers is value-level. Decides the structural agreement of the pyxform-side adapters: result keys are DefinitionData fields; all four backends lower-case, filter, fall back, record names, emit headers alike (blank-row handling differs: recorded finding); typed-cell normalisers agree on every value class; runs of <=20 empty columns / <=60 empty rows never truncate; every input kind of convert() is dispatched and normalised to BytesIO.",
+        "note": NOTE_COMMON,
+    },
+    "C13": {
+        "technique": "alias closure on folded tables; regex syntax trees and constant folding of the row-type patterns over every documented spelling; abstract evaluation of header normalisation; numbering census",
+        "text": "PARTIAL. Decides: each documented equivalence class of spellings maps to one canonical value; RE_BEGIN/END_CONTROL and RE_SELECT accept exactly the alias-table spellings with space or underscore; process_header normalises each documented header shape to the documented tokens and leaves unknown columns untouched; smart quotes / whitespace cleaning on every cleaned sheet; rows are numbered by sheet position with blank rows skipped, not removed. NOT decided: commutation of the normalisations with the whole pipeline.",
+        "note": NOTE_COMMON,
+    },
+    "C16": {
+        "technique": "dump table (abstract evaluation of to_json_dict per class) vs XML-read-set (AST) per class; constructor-field agreement; generation-writes intersect dump",
+        "text": "PARTIAL. Decides per element class: every slot read by XML generation survives to_json_dict with the same value or is in the explicit derivable table (two recorded findings: group bind, choice extra_data); dumped keys are constructor fields; constructor defaults are falsy; nothing non-JSON is stored in the intermediate form; generation does not clobber dumped slots (one recorded finding: search-select itemset). NOT decided: byte equality of regenerated XForms.",
+        "note": NOTE_COMMON,
+    },
+    "C17": {
+        "technique": "raise-type census; row-citation dataflow; must-call of validators; guard analysis for a frozen list of implicit-exception shapes (K1, K2, K4, K8)",
+        "text": "PARTIAL. Decides: every raise on the conversion path is a PyXFormError (validator path excluded); which row-loop errors are built from the row number (every deviation listed as a finding); validators are on every successful path; four shapes of implicit exceptions are guarded or listed as reproduced findings (8 reproduced internal exceptions). NOT decided: absence of all internal exceptions (undecidable in general).",
+        "note": NOTE_COMMON,
+    },
+    "C20": {
+        "technique": "write-only (non-interference) of the warnings list; guard-scope census; exhaustive abstract evaluation of the translation check over 512 header sets; threshold/constant checks with oracles",
+        "text": "PARTIAL. Decides: no library code reads the warnings list (so warnings cannot alter results); each warning's guard governs only the warning (documented exceptions listed); row-level warnings cite the row; the missing-translation map is correct for all 512 subsets of {label,hint,image}x{default,en,fr}; misspelling filter (<=2, exclusions), Levenshtein on reference pairs, IANA check exclusions; wiring and order of the checks. NOT decided: the iff for row-level triggers in arbitrary forms.",
+        "note": NOTE_COMMON,
+    },
     "C10": {
         "technique": "complementary guards and placement by abstract evaluation on abstract defaults and small concrete trees; call-site census; tuple-index agreement",
         "text": "PARTIAL. Decides: literal vs setvalue are complementary for every default class and both consult the classifier with (default,type); exactly two placements partitioned by repeat ancestry (evaluated on a tree with nested groups/repeats), with the right events; trigger bookkeeping tuple/map/event agreement and nesting in the triggering control. NOT decided: the lexer's classification of free text.",
